@@ -14,13 +14,23 @@ import numpy as np
 
 from runtime import rt
 
+import os
 import signal  # noqa: E402
 
-CASE_TIMEOUT_S = 60
+CASE_TIMEOUT_S = 120
 
 
 class _CaseTimeout(BaseException):
     pass
+
+
+def _case_timeout():
+    """Wall-clock watchdog per case, stretched on a loaded machine (a slow case is not a hang)."""
+    try:
+        f = max(1.0, min(8.0, os.getloadavg()[0] / (os.cpu_count() or 1)))
+    except OSError:
+        f = 1.0
+    return CASE_TIMEOUT_S * f
 
 
 def _on_alarm(signum, frame):  # noqa: ARG001
@@ -80,7 +90,7 @@ class StandIn:
                 signal.signal(signal.SIGALRM, _on_alarm)
                 # a REPEATING timer: the clean-up code the first interruption runs through (`with scheduler.session()`
                 # -> end_session) may block again on the very defect that caused the hang
-                signal.setitimer(signal.ITIMER_REAL, CASE_TIMEOUT_S, 3)
+                signal.setitimer(signal.ITIMER_REAL, _case_timeout(), 3)
                 try:
                     msg = self.check(reg, case)
                 finally:
@@ -93,7 +103,7 @@ class StandIn:
             except rt.ContractViolation as e:
                 msg = str(e)
             except _CaseTimeout:
-                msg = f"[hang] the real code did not return within {CASE_TIMEOUT_S}s on this case (deadlock / endless loop)"
+                msg = f"[hang] the real code did not return within {_case_timeout():.0f}s on this case (deadlock / endless loop)"
             except Exception as e:  # noqa: BLE001
                 # the real code raised on an admissible input of the scope: the specified result was not produced
                 import traceback
